@@ -290,6 +290,12 @@ def run_scenario(cfg, next_op, keyparams):
         res, excs, quiescent = vloop.run(main)
     finally:
         gc.enable()
+        # aiohttp raises one module-level exception instance for every read of a released response;
+        # its __traceback__ chain keeps the frames (and thereby all objects) of every scenario alive
+        import aiohttp.client_reqrep as _cr
+        exc = getattr(_cr, "_CONNECTION_CLOSED_EXCEPTION", None)
+        if exc is not None:
+            exc.__traceback__ = None
     R.loop_excs = [str(c.get("message")) for c in excs]
     R.quiescent = quiescent
     return R
